@@ -389,6 +389,263 @@ theorem build_total (codec : Option Codec) (rows cols : Nat) (t : SegType) (segs
   simp only [h1, h2, ↓reduceIte, hsf, hpd]
   exact ⟨_, rfl⟩
 
+/-! ## which frames exist -/
+
+/-- the facts every statement about a successfully built object starts from -/
+theorem build_frames (codec : Option Codec) (rows cols : Nat) (t : SegType) (segs : List Nat) (mfv : Nat) (omt : Bool)
+    (order : List Nat) (m : Mask) (hin : ∀ p ∈ order, p < m.numPlanes)
+    (o : SegObj) (hb : build codec rows cols t segs mfv omt order m = .ok o) :
+    ∃ bits arr ov pd, castMask segs t m = .ok (arr, ov) ∧ SegsOK t segs ∧ ArrOK segs t (rows * cols) arr ∧
+      arr.numPlanes = m.numPlanes ∧ (t = .fractional → 1 ≤ mfv ∧ mfv ≤ 255) ∧ bitsFor t segs = .ok bits ∧
+      m.numPlanes = order.length ∧ m.numPlanes ≠ 0 ∧
+      o = { rows := rows, cols := cols, bits := bits, t := t, mfv := mfv, segs := segs,
+            keys := ((cells t segs (planOrder arr mfv omt order).2).filterMap
+              (cellFrame arr segs t mfv (planOrder arr mfv omt order).1)).map (fun f => (f.seg, f.plane)), pd := pd } := by
+  obtain ⟨bits, arr, ov, frames, pd, hca, hcm, hnp, hsz, hsf, hpd, rfl⟩ := build_inv _ _ _ _ _ _ _ _ _ _ hb
+  obtain ⟨hcs, hmfv, _, hbits⟩ := checkArgs_inv _ _ _ _ _ hca
+  have hs := checkSegs_ok t segs hcs
+  obtain ⟨hrel, hnp0, hsz0⟩ := castMask_rel segs t m arr ov hs hcm
+  obtain ⟨harr, hnum⟩ := arrOK_of_castRel segs t (rows * cols) m arr hs hrel hsz
+  have hcell : ∀ c ∈ cells t segs (planOrder arr mfv omt order).2, ∃ px, cellE arr segs t mfv c.1 c.2 = .ok px := by
+    intro c hc
+    obtain ⟨h1, h2⟩ := (mem_cells t segs _ c).mp hc
+    obtain ⟨pl, hpl⟩ := plane?_of_lt arr c.2 (by have := hin _ (planOrder_sub arr omt order _ h2); omega)
+    obtain ⟨px, hpx, _⟩ := cell_facts segs t mfv (rows * cols) arr hs harr (fun h => (hmfv h).2) bits hbits c.1 h1 c.2 pl hpl
+    exact ⟨px, hpx⟩
+  rw [storedFrames_eq arr segs t mfv omt order hcell] at hsf
+  simp only [Except.ok.injEq] at hsf
+  subst hsf
+  exact ⟨bits, arr, ov, pd, hcm, hs, harr, hnum, hmfv, hbits, hnp, hnp0, rfl⟩
+
+theorem planOrder_mem (arr : Mask) (mfv : Nat) (omt : Bool) (order : List Nat) (p : Nat) (hp : p ∈ order)
+    (hlt : p < arr.numPlanes) (pl : Plane) (hpl : arr.plane? p = some pl) (hany : pl.any mfv = true) :
+    p ∈ (planOrder arr mfv omt order).2 := by
+  by_contra hc
+  have := planOrder_skipped arr omt order p hp hlt hc pl hpl
+  rw [this] at hany; cases hany
+
+/-- **every non-empty (segment, plane) pair has a frame** (and by `keys_nodup` exactly one) -/
+theorem nonempty_cell_stored (codec : Option Codec) (rows cols : Nat) (t : SegType) (segs : List Nat) (mfv : Nat)
+    (omt : Bool) (order : List Nat) (m : Mask) (hcover : ∀ p, p < m.numPlanes → p ∈ order)
+    (hin : ∀ p ∈ order, p < m.numPlanes) (o : SegObj) (hb : build codec rows cols t segs mfv omt order m = .ok o)
+    (arr : Mask) (ov : Overlap) (hcm : castMask segs t m = .ok (arr, ov))
+    (sg : Option Nat) (hsg : sg ∈ segmentsIterable t segs) (p : Nat) (hp : p < m.numPlanes) (px : List Nat)
+    (hpx : cellE arr segs t mfv sg p = .ok px) (hne : px.any (· != 0) = true) : (sg, p) ∈ o.keys := by
+  obtain ⟨bits, arr', ov', pd, hcm', hs, harr, hnum, hmfv, hbits, _, _, rfl⟩ :=
+    build_frames codec rows cols t segs mfv omt order m hin o hb
+  rw [hcm] at hcm'
+  simp only [Except.ok.injEq, Prod.mk.injEq] at hcm'
+  obtain ⟨rfl, rfl⟩ := hcm'
+  obtain ⟨pl, hpl⟩ := plane?_of_lt arr p (by omega)
+  obtain ⟨px', hpx', _, _, hz⟩ := cell_facts segs t mfv (rows * cols) arr hs harr (fun h => (hmfv h).2) bits hbits sg hsg p pl hpl
+  rw [hpx] at hpx'
+  simp only [Except.ok.injEq] at hpx'
+  subst hpx'
+  have hany : pl.any mfv = true := by
+    cases h : pl.any mfv
+    · rw [hz h] at hne; cases hne
+    · rfl
+  have hord := planOrder_mem arr mfv omt order p (hcover p hp) (by omega) pl hpl hany
+  have hcf : cellFrame arr segs t mfv (planOrder arr mfv omt order).1 (sg, p) = some ⟨sg, p, px⟩ := by
+    rw [cellFrame_of_cell _ _ _ _ _ (sg, p) px hpx]
+    have : keep (planOrder arr mfv omt order).1 sg px = true := by
+      unfold keep; simp [hne]
+    simp [this]
+  simp only
+  exact List.mem_map.mpr ⟨⟨sg, p, px⟩, List.mem_filterMap.mpr ⟨(sg, p), (mem_cells t segs _ (sg, p)).mpr ⟨hsg, hord⟩, hcf⟩, rfl⟩
+
+/-- without `omit_empty_frames` every (segment, plane) pair has a frame -/
+theorem all_cells_stored (codec : Option Codec) (rows cols : Nat) (t : SegType) (segs : List Nat) (mfv : Nat)
+    (order : List Nat) (m : Mask) (hcover : ∀ p, p < m.numPlanes → p ∈ order)
+    (hin : ∀ p ∈ order, p < m.numPlanes) (o : SegObj) (hb : build codec rows cols t segs mfv false order m = .ok o)
+    (sg : Option Nat) (hsg : sg ∈ segmentsIterable t segs) (p : Nat) (hp : p < m.numPlanes) : (sg, p) ∈ o.keys := by
+  obtain ⟨bits, arr, ov, pd, hcm, hs, harr, hnum, hmfv, hbits, _, _, rfl⟩ :=
+    build_frames codec rows cols t segs mfv false order m hin o hb
+  obtain ⟨pl, hpl⟩ := plane?_of_lt arr p (by omega)
+  obtain ⟨px, hpx, _⟩ := cell_facts segs t mfv (rows * cols) arr hs harr (fun h => (hmfv h).2) bits hbits sg hsg p pl hpl
+  have hpo : planOrder arr mfv false order = (false, order) := by simp [planOrder]
+  have hcf : cellFrame arr segs t mfv false (sg, p) = some ⟨sg, p, px⟩ := by
+    rw [cellFrame_of_cell _ _ _ _ _ (sg, p) px hpx]
+    simp [keep]
+  simp only [hpo]
+  exact List.mem_map.mpr ⟨⟨sg, p, px⟩, List.mem_filterMap.mpr ⟨(sg, p), (mem_cells t segs _ (sg, p)).mpr ⟨hsg, hcover p hp⟩, hcf⟩, rfl⟩
+
+theorem segmentsIterable_ne_nil (t : SegType) (segs : List Nat) (h : segs ≠ []) : segmentsIterable t segs ≠ [] := by
+  unfold segmentsIterable
+  split
+  · simp
+  · simpa using h
+
+/-- reading without `assert_missing_frames_are_empty` gives the same result whenever every requested source plane
+    is referenced by some frame -/
+theorem strict_eq (codec : Option Codec) (o : SegObj) (request : List Nat)
+    (h : ∀ p ∈ request, p ∈ o.keys.map (·.2)) :
+    readBySource codec o request false = readBySource codec o request true := by
+  unfold readBySource
+  split
+  · rfl
+  · have hno : (request.any fun p => decide ¬ p ∈ o.keys.map (·.2)) = false := by
+      rw [List.any_eq_false]
+      intro p hp
+      simp only [decide_eq_true_eq, not_not]
+      exact h p hp
+    simp only [hno, Bool.false_eq_true, and_false, ↓reduceIte]
+
+theorem stretch_nonzero (t : SegType) (mfv : Nat) (hm : t = .fractional → 1 ≤ mfv) (b : List Nat)
+    (hb : b.any (· != 0) = true) : (stretch t mfv b).any (· != 0) = true := by
+  unfold stretch
+  split
+  · rename_i h
+    obtain ⟨v, hv, hne⟩ := List.any_eq_true.mp hb
+    have := hm h.1
+    refine List.any_eq_true.mpr ⟨v * mfv, List.mem_map.mpr ⟨v, hv, rfl⟩, ?_⟩
+    simp only [bne_iff_ne, ne_eq] at hne ⊢
+    intro hc
+    rcases Nat.mul_eq_zero.mp hc with h0 | h0
+    · exact hne h0
+    · omega
+  · exact hb
+
+/-- a non-empty plane has a non-empty frame for some described segment (BINARY / FRACTIONAL) -/
+theorem cell_nonzero (segs : List Nat) (t : SegType) (mfv n : Nat) (arr : Mask) (hs : SegsOK t segs)
+    (ha : ArrOK segs t n arr) (hm : t = .fractional → 1 ≤ mfv) (ht : t ≠ .labelmap) (p : Nat) (pl : Plane)
+    (hp : arr.plane? p = some pl) (hany : pl.any mfv = true) :
+    ∃ s ∈ segs, ∃ px, cellE arr segs t mfv (some s) p = .ok px ∧ px.any (· != 0) = true := by
+  have hcons := hs.consec ht
+  obtain ⟨s0, hs0⟩ := List.exists_mem_of_ne_nil segs hs.ne
+  unfold cellE
+  rw [hp]
+  cases arr with
+  | intLabel ps =>
+    obtain ⟨px, hq, rfl⟩ := plane_intLabel ps p pl hp
+    obtain ⟨_, hv⟩ := ha px (List.mem_of_getElem? hq)
+    simp only [Plane.any] at hany
+    obtain ⟨v, hvm, hne⟩ := List.any_eq_true.mp hany
+    have hv0 : v ≠ 0 := by simpa using hne
+    have hvs : v ∈ segs := by
+      have h1 := hv v hvm
+      have h2 : listMax segs ≤ segs.length := by
+        apply listMax_le
+        intro w hw
+        rw [hcons] at hw
+        have := List.mem_range'_1.mp hw
+        omega
+      rw [hcons]
+      exact List.mem_range'_1.mpr ⟨by omega, by omega⟩
+    refine ⟨v, hvs, _, rfl, ?_⟩
+    apply stretch_nonzero t mfv hm
+    split
+    · exact hany
+    · exact List.any_eq_true.mpr ⟨1, List.mem_map.mpr ⟨v, hvm, by simp⟩, by simp⟩
+  | intStack ps =>
+    obtain ⟨px, hq, rfl⟩ := plane_intStack ps p pl hp
+    obtain ⟨_, hch⟩ := ha.2 px (List.mem_of_getElem? hq)
+    simp only [Plane.any] at hany
+    obtain ⟨ch, hcm, hc2⟩ := List.any_eq_true.mp hany
+    obtain ⟨v, hvm, hne⟩ := List.any_eq_true.mp hc2
+    obtain ⟨k, hk, rfl⟩ := List.getElem_of_mem hvm
+    obtain ⟨i, hi, rfl⟩ := List.getElem_of_mem hcm
+    have hkn : k < segs.length := by rw [← (hch _ hcm).1]; exact hk
+    have hsk : k + 1 ∈ segs := by rw [hcons]; exact List.mem_range'_1.mpr ⟨by omega, by omega⟩
+    obtain ⟨a, hao, hal, haa⟩ := chanO_some_of_lengths k px segs.length hkn (fun c hc => (hch c hc).1)
+    have hac := (channel_ok_iff k px a).mpr hao
+    refine ⟨k + 1, hsk, stretch t mfv a, ?_, ?_⟩
+    · simp only [segPlane, Nat.add_sub_cancel, hac, bind, Except.bind, pure, Except.pure]
+    · apply stretch_nonzero t mfv hm
+      have h1 := haa i hi (by omega)
+      rw [List.getElem?_eq_getElem hk] at h1
+      simp only [Option.some.injEq] at h1
+      exact List.any_eq_true.mpr ⟨a[i]'(by omega), List.getElem_mem _, by rw [← h1]; exact hne⟩
+  | fltLabel ps =>
+    obtain ⟨px, hq, rfl⟩ := plane_fltLabel ps p pl hp
+    simp only [Plane.any] at hany
+    obtain ⟨x, hxm, hne⟩ := List.any_eq_true.mp hany
+    exact ⟨s0, hs0, _, rfl, List.any_eq_true.mpr ⟨quantise mfv x, List.mem_map.mpr ⟨x, hxm, rfl⟩, hne⟩⟩
+  | fltStack ps =>
+    obtain ⟨px, hq, rfl⟩ := plane_fltStack ps p pl hp
+    obtain ⟨_, hch⟩ := ha.2 px (List.mem_of_getElem? hq)
+    simp only [Plane.any] at hany
+    obtain ⟨ch, hcm, hc2⟩ := List.any_eq_true.mp hany
+    obtain ⟨x, hxm, hne⟩ := List.any_eq_true.mp hc2
+    obtain ⟨k, hk, rfl⟩ := List.getElem_of_mem hxm
+    obtain ⟨i, hi, rfl⟩ := List.getElem_of_mem hcm
+    have hkn : k < segs.length := by rw [← (hch _ hcm).1]; exact hk
+    have hsk : k + 1 ∈ segs := by rw [hcons]; exact List.mem_range'_1.mpr ⟨by omega, by omega⟩
+    obtain ⟨a, hao, hal, haa⟩ := chanO_some_of_lengths k px segs.length hkn (fun c hc => (hch c hc).1)
+    have hac := (channel_ok_iff k px a).mpr hao
+    refine ⟨k + 1, hsk, a.map (quantise mfv), ?_, ?_⟩
+    · simp only [segPlane, Nat.add_sub_cancel, hac, bind, Except.bind, pure, Except.pure]
+    · have h1 := haa i hi (by omega)
+      rw [List.getElem?_eq_getElem hk] at h1
+      simp only [Option.some.injEq] at h1
+      exact List.any_eq_true.mpr ⟨quantise mfv (a[i]'(by omega)),
+        List.mem_map.mpr ⟨a[i]'(by omega), List.getElem_mem _, rfl⟩, by rw [← h1]; exact hne⟩
+
+theorem planOrder_cases (arr : Mask) (mfv : Nat) (omt : Bool) (order : List Nat) :
+    ((planOrder arr mfv omt order).1 = false ∧ (planOrder arr mfv omt order).2 = order) ∨
+    ((planOrder arr mfv omt order).1 = true ∧ ∃ p, p < arr.numPlanes ∧ planeNonEmpty arr mfv p = true) := by
+  unfold planOrder
+  split
+  · simp only []
+    split
+    · left; exact ⟨rfl, rfl⟩
+    · rename_i hne
+      right
+      refine ⟨rfl, ?_⟩
+      obtain ⟨p, hp⟩ := List.exists_mem_of_ne_nil _ hne
+      obtain ⟨h1, h2⟩ := List.mem_filter.mp hp
+      exact ⟨p, List.mem_range.mp h1, h2⟩
+  · left; exact ⟨rfl, rfl⟩
+
+/-- **an accepted mask always yields at least one frame** (NumberOfFrames ≥ 1): with `omit_empty_frames` a plane
+    that is non-empty after quantisation keeps a frame, and an entirely empty mask keeps all frames -/
+theorem frames_nonempty (codec : Option Codec) (rows cols : Nat) (t : SegType) (segs : List Nat) (mfv : Nat)
+    (omt : Bool) (order : List Nat) (m : Mask) (hcover : ∀ p, p < m.numPlanes → p ∈ order)
+    (hin : ∀ p ∈ order, p < m.numPlanes) (o : SegObj) (hb : build codec rows cols t segs mfv omt order m = .ok o) :
+    o.keys ≠ [] := by
+  obtain ⟨bits, arr, ov, pd, hcm, hs, harr, hnum, hmfv, hbits, hnp, hnp0, rfl⟩ :=
+    build_frames codec rows cols t segs mfv omt order m hin o hb
+  simp only
+  -- it suffices to exhibit one kept cell
+  suffices h : ∃ c ∈ cells t segs (planOrder arr mfv omt order).2, ∃ f,
+      cellFrame arr segs t mfv (planOrder arr mfv omt order).1 c = some f by
+    obtain ⟨c, hc, f, hf⟩ := h
+    intro hnil
+    have : f ∈ (cells t segs (planOrder arr mfv omt order).2).filterMap
+        (cellFrame arr segs t mfv (planOrder arr mfv omt order).1) := List.mem_filterMap.mpr ⟨c, hc, hf⟩
+    have h2 : (f.seg, f.plane) ∈ ((cells t segs (planOrder arr mfv omt order).2).filterMap
+        (cellFrame arr segs t mfv (planOrder arr mfv omt order).1)).map (fun f => (f.seg, f.plane)) :=
+      List.mem_map.mpr ⟨f, this, rfl⟩
+    rw [hnil] at h2; cases h2
+  obtain ⟨sg0, hsg0⟩ := List.exists_mem_of_ne_nil _ (segmentsIterable_ne_nil t segs hs.ne)
+  rcases planOrder_cases arr mfv omt order with ⟨h1, h2⟩ | ⟨h1, p, hp, hpne⟩
+  · -- nothing is omitted
+    have hone : order ≠ [] := by
+      intro hc; rw [hc] at hnp; simp at hnp; exact hnp0 hnp
+    obtain ⟨p, hpo⟩ := List.exists_mem_of_ne_nil _ hone
+    obtain ⟨pl, hpl⟩ := plane?_of_lt arr p (by have := hin p hpo; omega)
+    obtain ⟨px, hpx, _⟩ := cell_facts segs t mfv (rows * cols) arr hs harr (fun h => (hmfv h).2) bits hbits sg0 hsg0 p pl hpl
+    refine ⟨(sg0, p), (mem_cells t segs _ (sg0, p)).mpr ⟨hsg0, by rw [h2]; exact hpo⟩, ⟨sg0, p, px⟩, ?_⟩
+    rw [cellFrame_of_cell _ _ _ _ _ (sg0, p) px hpx, h1]
+    simp [keep]
+  · -- some plane is non-empty
+    obtain ⟨pl, hpl⟩ := plane?_of_lt arr p hp
+    have hany : pl.any mfv = true := by simpa [planeNonEmpty, hpl] using hpne
+    have hord := planOrder_mem arr mfv omt order p (hcover p (by omega)) hp pl hpl hany
+    by_cases ht : t = .labelmap
+    · have hiter : (none : Option Nat) ∈ segmentsIterable t segs := by simp [segmentsIterable, ht]
+      obtain ⟨px, hpx, _⟩ := cell_facts segs t mfv (rows * cols) arr hs harr (fun h => (hmfv h).2) bits hbits none hiter p pl hpl
+      refine ⟨(none, p), (mem_cells t segs _ (none, p)).mpr ⟨hiter, hord⟩, ⟨none, p, px⟩, ?_⟩
+      rw [cellFrame_of_cell _ _ _ _ _ (none, p) px hpx]
+      simp [keep]
+    · obtain ⟨s, hsm, px, hpx, hne⟩ := cell_nonzero segs t mfv (rows * cols) arr hs harr (fun h => (hmfv h).1) ht p pl hpl hany
+      have hiter : some s ∈ segmentsIterable t segs := by
+        simp only [segmentsIterable, ht, ↓reduceIte]
+        exact List.mem_map.mpr ⟨s, hsm, rfl⟩
+      refine ⟨(some s, p), (mem_cells t segs _ (some s, p)).mpr ⟨hiter, hord⟩, ⟨some s, p, px⟩, ?_⟩
+      rw [cellFrame_of_cell _ _ _ _ _ (some s, p) px hpx]
+      simp [keep, hne]
+
 /-! ## refusals -/
 
 theorem castMask_error_of_values (segs : List Nat) (t : SegType) (m : Mask)
